@@ -134,6 +134,9 @@ func (obj *SparseInt16Vector) SET(x *SparseInt16Vector) {
   }
 }
 func (obj *SparseInt16Vector) SLICE(i, j int) *SparseInt16Vector {
+  if i < 0 || i > j || j > obj.n {
+    panic("slice bounds out of range")
+  }
   r := nilSparseInt16Vector(j-i)
   for it := obj.indexIteratorFrom(i); it.Ok(); it.Next() {
     if it.Get() >= j {
@@ -221,6 +224,9 @@ func (obj *SparseInt16Vector) Slice(i, j int) Vector {
   return obj.SLICE(i, j)
 }
 func (obj *SparseInt16Vector) Swap(i, j int) {
+  if i < 0 || i >= obj.n || j < 0 || j >= obj.n {
+    panic("index out of bounds")
+  }
   vi, oki := obj.values[i]
   vj, okj := obj.values[j]
   switch {
